@@ -75,6 +75,7 @@ fn base_weights(prop: u32) -> [u32; NCAT] {
 impl Swarm {
     pub fn draw(rng: &mut Rng, prop: u32) -> Swarm {
         let mut w = base_weights(prop);
+        let long = rng.chance(3);
         // swarm: every category weight is scaled by a random factor, some are switched off
         for (i, x) in w.iter_mut().enumerate() {
             let f = [0u32, 1, 2, 2, 4, 8][rng.below(6)];
@@ -82,6 +83,12 @@ impl Swarm {
             if i == CAT_PUSH && *x == 0 {
                 *x = 20;
             }
+        }
+        if long && rng.chance(60) {
+            // a long *game*: mostly accepted pushes, few pops, so that the chain itself gets long
+            w[CAT_PUSH] = w[CAT_PUSH].max(20) * 6;
+            w[CAT_POP] /= 4;
+            w[CAT_OUTCOME] /= 4;
         }
         let faults_on = !rng.chance(15);
         let fault_pct = if faults_on { [5u32, 10, 25, 25, 40, 60][rng.below(6)] } else { 0 };
@@ -152,7 +159,7 @@ impl Swarm {
         };
         Swarm {
             // mostly short and diverse; now and then a long history (many push/pop cycles)
-            steps: if rng.chance(3) { [800usize, 1200][rng.below(2)] } else { [64usize, 96, 128, 200, 300, 400][rng.below(6)] },
+            steps: if long { [800usize, 1200][rng.below(2)] } else { [64usize, 96, 128, 200, 300, 400][rng.below(6)] },
             w,
             form_w,
             fault_pct,
